@@ -146,7 +146,7 @@ class TransactionalizedFIFO(Elaboratable):
             m.d.sync += current_write_pointer.eq(next_write_pointer)
 
         # If we're committing a FIFO write, update our committed position.
-        with m.If(self.write_commit):
+        with m.If(self.write_commit & ~self.write_discard):
             m.d.sync += committed_write_pointer.eq(current_write_pointer)
 
         # If we're discarding our current write, reset our current position,
@@ -189,7 +189,7 @@ class TransactionalizedFIFO(Elaboratable):
             m.d.sync += current_read_pointer.eq(next_read_pointer)
 
         # If we're committing a FIFO write, update our committed position.
-        with m.If(self.read_commit):
+        with m.If(self.read_commit & ~self.read_discard):
             m.d.sync += committed_read_pointer.eq(current_read_pointer)
 
         # If we're discarding our current write, reset our current position,
